@@ -83,6 +83,9 @@ AtomHolds(a, s, P) ==
       \* restricted sub-queries: some visible stream t of the searched population P satisfies the sub-query and the join
       [] a.k = "sub_port" -> \E t \in P : t.cport = a.n /\ s.sport = t.sport          \* @s:cport:n sport:@s:sport@
       [] a.k = "sub_id"   -> \E t \in P : a.name \in Range(t.tags) /\ s.id = t.id + 1  \* @s:tag:x id:@s:id@+1
+      \* a value captured in a sub-query and looked for in the main stream:  @s:id:n @s:cdata:"(?P<name>tok)" cdata:@s:name@ sport:p
+      [] a.k = "sub_cap"  -> /\ \E t \in P : t.id = a.n /\ HasTok(t, "c", a.tok)
+                             /\ HasTok(s, "c", a.tok) /\ s.sport = a.p
 
 IsDataAtom(a) == a.k \in {"cdata", "sdata", "data"}
 DirsOf(a) == CASE a.k = "cdata" -> {"c"} [] a.k = "sdata" -> {"s"} [] a.k = "data" -> {"c", "s"}
